@@ -16,22 +16,22 @@ NA = {
 # id -> (level category, technique, level text, level note, design ref)
 CLAIMED = {
  "C03": ("exploration", "deterministic simulation of ValueReader histories under tape-decided pool schedules (hit/miss/pick/evict at every borrow); reference-model oracle",
-         "REDUCED SCOPE. Decides that the generic decoder's result does not depend on which pooled child reader serves which nested value, nor on reader reuse, and equals an independent reference parser (cross-checked with encoding/json per document) on sampled tree shapes incl. duplicate/escaped keys, empty containers, depth 9,999/10,000/10,001, every float path, raw invalid UTF-8; typed entry points reject other roots and null. The byte-string quantifier itself is only sampled.",
+         "REDUCED SCOPE. Decides that the generic decoder's result does not depend on which pooled child reader serves which nested value, nor on reader reuse, and equals an independent reference parser (cross-checked with encoding/json per document) on sampled tree shapes incl. duplicate/escaped keys, empty containers, depth 9,999/10,000/10,001, every float path, raw invalid UTF-8; typed entry points reject other roots and null. Histories also contain: the next message arriving in the same read buffer (same address / length / structure, other content), thousands of never-seen field names, and the caller modifying earlier results (later results must not show it). The byte-string quantifier itself is only sampled.",
          "Trusts model.go (cross-checked against encoding/json's streaming decoder on every document <= 64 KB: well-formedness, end offset and tree after U+FFFD replacement); the pool seam replaces sync.Pool.", "DESIGN.md section 4 C03"),
  "C07": ("exploration", "deterministic simulation of the library<->handler protocol: tape-driven handler decisions, recorded callback history checked against a reference parser",
          "Seeded search over (document, per-callback decline/consume/nested-traversal decision) scenarios; every recorded callback history and final offset is checked against an independent RFC 8259 reference parser. Sampling, not proof: the document space is sampled, the decision space is enumerated only for containers of <= 8 members (thorough).",
          "Trusts the reference parser (cross-checked against encoding/json on every document; disagreement aborts with exit 2). Documents nested <= 10,000.", "DESIGN.md section 4 C07"),
  "C08": ("exploration", "deterministic simulation: family of tape-driven API-composition decoders (typed readers / skip / skip-fast / decline / nested traversals, three Buffer-sharing patterns); self-differential oracle",
-         "Seeded search over (document, per-member strategy tape, buffer pattern); oracle is direct ReadValue on the same bytes: equal final offset for every decoder, equal tree for read-everything decoders, failure of read-everything decoders where direct decoding fails (nesting <= 9,000).",
+         "Seeded search over (document, per-member strategy tape, buffer pattern); oracle is direct ReadValue on the same bytes: equal final offset for every decoder, equal tree for read-everything decoders, failure of read-everything decoders where direct decoding fails (nesting <= 9,000). Decoders may keep a long-lived ValueReader and Buffers that have read (or failed on) the scenario's earlier documents.",
          "Self-differential: ReadValue of the same tree is the reference (its own correctness is C03's). Values read through integer readers are not compared.", "DESIGN.md section 4 C08"),
  "C09": ("fault_enumeration", "fault injection: handler error at callback k (enumerated for <= 32 members) x error kind x accompanying offset incl. integer-limit values; history oracle",
          "For each generated container every position k of the failing call is enumerated (<= 32 members) with pointer/value/io.EOF sentinels and offsets from the hostile catalogue; oracle is interface identity of the returned error and zero callbacks after the fault, also through nested traversals.",
          "Documents are sampled; identity is Go == on the error interface.", "DESIGN.md section 4 C09"),
- "C10": ("fault_enumeration", "fault injection: hostile handler return values at every callback, hostile documents, scribbled/resized Buffers, dirty destinations; safety invariants after every operation; hang watchdog",
-         "Every exported function runs on hostile documents (nesting to 1,000,000, megabyte tokens, every truncation, random bytes) with a handler returning integers from a 24-entry hostile catalogue (incl. the values that wrap p+pp), errors, or re-entering the library; invariants: no panic, termination, err==nil => 0<=p<=len, out-of-range offsets on consumed members => error.",
+ "C10": ("fault_enumeration", "fault injection: hostile handler return values at every callback, hostile documents (also from each entry point's own domain, cut mid-token), scribbled/resized Buffers, dirty destinations, hostile memory layout (read-only input in front of an inaccessible page; cut-off part of a truncated document in the spare capacity); safety invariants after every operation; hang watchdog",
+         "Every exported function runs on hostile documents (nesting to 1,000,000, megabyte tokens, every truncation, random bytes) with a handler returning integers from a 40-entry hostile catalogue (incl. the values that wrap p+pp), errors, or re-entering the library; invariants: no panic, termination, err==nil => 0<=p<=len, out-of-range offsets on consumed members => error.",
          "Not quantified over nil handlers / nil targets / zero ValueReader as handler (API misuse). Termination via wall-clock watchdog. Scalar members ignore handler offsets by design.", "DESIGN.md section 4 C10, 6.2, 6.6"),
  "C12": ("exploration", "deterministic state-machine simulation: Decode targets carry values through histories of succeeding / failing / null calls; self-differential + target model",
-         "REDUCED SCOPE. Histories of Decode calls on long-lived non-zero targets; oracle is the corresponding Read* on the same bytes plus a harness-side literal-null test: store exactly on reader success, offset just after null and untouched target on null, error and untouched target otherwise. Inputs are sampled per class (accepted, null behind whitespace, near-miss nulls, wrong type, out of range, truncated).",
+         "REDUCED SCOPE. Histories of Decode calls on long-lived non-zero targets; oracle is the corresponding Read* on the same bytes plus a harness-side literal-null test: store exactly on reader success, offset just after null and untouched target on null, error and untouched target otherwise. Inputs are sampled per class (accepted, null behind whitespace, near-miss nulls incl. partial nulls with the rest behind the input, wrong type, out of range, numeric type boundaries, reader-prefix-then-null, truncated); one call in five finds its target holding a value derived from the input it is about to decode (raw text, the very value, the other sign of zero).",
          "What each reader accepts is taken from the Read* function of the same tree (C04/C05/C06/C13 own that).", "DESIGN.md section 4 C12"),
  "C14": ("exploration", "deterministic simulation of Buffer histories: scribble/resize faults between and inside calls, re-entrant handlers sharing the enclosing Buffer; twin execution with no Buffer as oracle",
          "Histories of 1-12 buffer-taking calls incl. failing, depth-limited and handler-aborted ones, with the Buffer's stack overwritten/resized between calls and inside callbacks and handlers re-entering the library with the enclosing call's Buffer; each call is re-executed with nil buffers and the same tape: outcome and callback history must be identical.",
@@ -40,16 +40,16 @@ CLAIMED = {
          "Histories of 1-10 reads on one reader incl. failing / depth-limit exits / documents of very different size, with P-miss / P-pick / P-evict at every borrow and caller mutations of returned trees; each result must equal a brand-new reader's, and every earlier result must stay equal to its snapshot.",
          "Self-differential (fresh reader). The pool seam replaces sync.Pool (real sync.Pool behaviour is a subset of the schedules the tape can express).", "DESIGN.md section 4 C15"),
  "C16": ("fault_enumeration", "fault injection on destination/scratch buffers (40 prefix x spare-capacity configurations enumerated), poisoned input capacity, post-return overwrite; differential against empty destination + snapshots",
-         "Appending functions are run with every one of 40 dirty-destination configurations (thorough) and compared with the empty-destination result; scratch functions with dirty reused scratch vs none; every exported function's input [:cap] is compared after the call (also failing calls); inputs, scratch and destinations are overwritten after return and all returned strings/trees re-compared.",
+         "Appending functions are run with every one of 40 dirty-destination configurations (thorough) and compared with the empty-destination result; scratch functions with dirty reused scratch vs none; every exported function's input [:cap] is compared after the call (also failing calls); inputs, scratch and destinations are overwritten after return and all returned strings/trees re-compared; one input in four is mapped read-only in front of an inaccessible page (a write into the input faults even if it is undone before returning); argument trees of the StdLibCompatible helpers are scrubbed after the copy was taken.",
          "Results of failing calls unconstrained. Inputs sampled.", "DESIGN.md section 4 C16"),
  "C18": ("exploration", "deterministic simulation: seeded cooperative scheduler over real goroutines parked at ~5,650 AST-inserted yield points (every statement) of an instrumented scratch copy; random-quantum, preemption-bounded, shared-state-aimed and exhaustive single-preemption-sweep schedules (stage A), plus free-running -race stage (B)",
          "Stage A: 2-6 tasks on shared read-only documents, exactly one runnable, task and quantum from the schedule tape (random quanta; 1-3 preemptions placed from the task's own sequential yield count with a complete foreign operation in the gap; preemptions aimed at functions touching mutable package-level state when the tree has any; blocks of 1,024 scenarios that sweep every single-preemption point of a two-task base scenario); each operation's outcome incl. error text must equal the sequential run. Stage B: same scenarios uninstrumented under the race detector on 8x12 (quick) fresh processes, concurrent phase first. Both must pass. Stage A is replayable and shrinkable; stage B is not schedule-deterministic (evidence says so).",
          "Interleaving granularity = instrumented yield sites. Race detector for stage B.", "DESIGN.md section 4 C18, 7.2"),
- "C19": ("exploration", "simulated histories on warmed Buffers/destinations with allocation-count invariant (MemStats.Mallocs == 0 over 8 repetitions, GOMAXPROCS=1)",
-         "REDUCED SCOPE. Every successful call of the zero-allocation class inside histories that dirty the shared Buffer/destination first (incl. failing calls) must allocate nothing; inputs are drawn per conversion path (exact float, Eisel-Lemire, long mantissa, halfway, subnormal, 18/19/20-digit ints, all escape kinds, depth equal to warmed depth, destination slack exactly 0).",
+ "C19": ("exploration", "simulated histories on warmed Buffers/destinations with allocation-count invariant (MemStats.Mallocs == 0 for the first call, for 8 repetitions, and for the first call of a fresh child process; GOMAXPROCS=1)",
+         "REDUCED SCOPE. Every successful call of the zero-allocation class inside histories that dirty the shared Buffer/destination first (incl. failing calls) must allocate nothing; inputs are drawn per conversion path (exact float, Eisel-Lemire, long mantissa, halfway, subnormal, 18/19/20-digit ints, all escape kinds, depth equal to warmed depth, destination slack exactly 0, in-place and same-arena destinations); the first call after the preconditions hold is measured on its own (after a GC that empties pools), and one operation in twelve is also measured as the very first call of a fresh child process (lazily initialised state).",
          "Buffer warmed only by completed top-level non-re-entrant calls. Path labels come from literal shape. Process-wide Mallocs filtered by integer average + min of 3 attempts.", "DESIGN.md section 4 C19, 6.5"),
  "C20": ("exploration", "simulated histories on one reader/buffer with allocation-byte accounting at every prefix (TotalAlloc <= K*bytes + C*calls), adversarial shapes at growing sizes",
-         "Histories of validate/skip/traverse/decode calls on adversarial shapes (big container then n small siblings, escapes at every level and in every child, deep nesting, megabyte strings) at sizes x1/x10/x100 and 'one large then up to 20,000 small (also failing) documents' on the same reader; bound K=1024 B/B, C=4 KiB/call evaluated at every prefix.",
+         "Histories of validate/skip/traverse/decode calls on adversarial shapes (big container then n small siblings, escapes at every level and in every child, deep nesting, megabyte strings) at sizes x1/x10/x100 and 'one large then up to 20,000 small (also failing) documents' on the same reader, and documents decoded the handler way (traverse, decode every member with the long-lived reader); bound K=1024 B/B, C=4 KiB/call evaluated at every prefix, plus a scaling oracle (bytes allocated per input byte must not grow from size x to 10x).",
          "K and C instantiate the statement's 'fixed constants' (3x head-room over the dearest legitimate shape at GOMAXPROCS=1). Realistic pool policy (hit when possible, eviction between calls).", "DESIGN.md section 4 C20, 6.4"),
 }
 
